@@ -1,7 +1,7 @@
 (* C14 property theorems: statements only, each closed by [exact].
    Model/C14.v: every build runs PreLock; Pre; PreUnlock (reserve the pre-chosen wallet outputs under the lock), then
    rounds of Lock; Read; Select; Reserve; Unlock, then Abort (nothing found, or tx.sign raised) or Finish (broadcast /
-   abandon); [run use_lock lock_pre n choose more finish pre start can_sign sched st] executes one step of the named
+   abandon); [run use_lock lock_pre n choose more finish pre start quits can_sign sched st] executes one step of the named
    build per element of the ARBITRARY schedule [sched].
    Premise about pre-chosen inputs ([fresh_sched]): whenever a build reserves its pre-chosen wallet outputs they are
    unreserved at that moment.  The code does not refuse a pre-chosen output that another build already holds, so this
@@ -16,13 +16,13 @@ Import ListNotations.
    is reserved in the wallet is exactly the union of the inputs of the builds in flight, and a held output is not
    offered to anybody. *)
 Theorem C14_exclusive :
-  forall n choose more finish pre start can_sign,
+  forall n choose more finish pre start quits can_sign,
   (forall b, NoDup (map uid (pre b))) ->
   (forall b r l, NoDup (map uid l) -> incl (choose b r l) l /\ NoDup (map uid (choose b r l))) ->
   forall w0, NoDup (map (fun e : utxo * bool => uid (fst e)) w0) -> (forall e, In e w0 -> snd e = false) ->
   forall sched,
-  fresh_sched n choose more finish pre start can_sign sched (init w0) ->
-  let st := run true true n choose more finish pre start can_sign sched (init w0) in
+  fresh_sched n choose more finish pre start quits can_sign sched (init w0) ->
+  let st := run true true n choose more finish pre start quits can_sign sched (init w0) in
   (forall b1 b2 i, b1 <> b2 -> In i (held_ids st b1) -> In i (held_ids st b2) -> False) /\
   (forall b, NoDup (held_ids st b)) /\
   (forall i, In i (reserved_ids (wal st)) <-> exists b, b < n /\ In i (held_ids st b)) /\
@@ -32,8 +32,8 @@ Print Assumptions C14_exclusive.
 
 (* without pre-chosen wallet outputs the premise holds for every schedule *)
 Theorem C14_fresh_when_no_prechosen :
-  forall n choose more finish pre start can_sign sched,
-  (forall b, pre b = []) -> forall st, fresh_sched n choose more finish pre start can_sign sched st.
+  forall n choose more finish pre start quits can_sign sched,
+  (forall b, pre b = []) -> forall st, fresh_sched n choose more finish pre start quits can_sign sched st.
 Proof. exact fresh_sched_nil_pre. Qed.
 Print Assumptions C14_fresh_when_no_prechosen.
 
@@ -41,12 +41,12 @@ Print Assumptions C14_fresh_when_no_prechosen.
    deficits it asks for): its premise is discharged by C03_select_sound / C03_sqlite_sound. *)
 Theorem C14_exclusive_real_chooser :
   forall fpb shuffle, (forall l, Permutation.Permutation l (shuffle l)) -> (0 <= fpb)%Z ->
-  forall strat amount n more finish pre start can_sign w0,
+  forall strat amount n more finish pre start quits can_sign w0,
   (forall b, NoDup (map uid (pre b))) ->
   NoDup (map (fun e : utxo * bool => uid (fst e)) w0) -> (forall e, In e w0 -> snd e = false) ->
   forall sched,
-  fresh_sched n (c03_choose fpb shuffle strat amount) more finish pre start can_sign sched (init w0) ->
-  let st := run true true n (c03_choose fpb shuffle strat amount) more finish pre start can_sign sched (init w0) in
+  fresh_sched n (c03_choose fpb shuffle strat amount) more finish pre start quits can_sign sched (init w0) ->
+  let st := run true true n (c03_choose fpb shuffle strat amount) more finish pre start quits can_sign sched (init w0) in
   (forall b1 b2 i, b1 <> b2 -> In i (held_ids st b1) -> In i (held_ids st b2) -> False) /\
   (forall b, NoDup (held_ids st b)) /\
   (forall i, In i (reserved_ids (wal st)) <-> exists b, b < n /\ In i (held_ids st b)) /\
@@ -59,13 +59,13 @@ Print Assumptions C14_exclusive_real_chooser.
    Once every build has failed (for lack of funds OR while signing), been abandoned or been broadcast nothing is
    reserved; if none was broadcast the wallet is exactly what it was: every output is available again. *)
 Theorem C14_all_released :
-  forall n choose more finish pre start can_sign,
+  forall n choose more finish pre start quits can_sign,
   (forall b, NoDup (map uid (pre b))) ->
   (forall b r l, NoDup (map uid l) -> incl (choose b r l) l /\ NoDup (map uid (choose b r l))) ->
   forall w0, NoDup (map (fun e : utxo * bool => uid (fst e)) w0) -> (forall e, In e w0 -> snd e = false) ->
   forall sched,
-  fresh_sched n choose more finish pre start can_sign sched (init w0) ->
-  let st := run true true n choose more finish pre start can_sign sched (init w0) in
+  fresh_sched n choose more finish pre start quits can_sign sched (init w0) ->
+  let st := run true true n choose more finish pre start quits can_sign sched (init w0) in
   (forall b, b < n -> finished (ph (bs st b)) = true) ->
   reserved_ids (wal st) = [] /\
   ((forall b, b < n -> ph (bs st b) <> PDone Broadcast) -> wal st = w0).
@@ -75,26 +75,26 @@ Print Assumptions C14_all_released.
 (* Non-vacuity: the same programs without their Lock/Unlock steps admit a schedule in which two builds hold the same
    outpoint (no pre-chosen inputs involved). *)
 Theorem C14_lock_needed :
-  exists n choose more finish pre start can_sign w0 sched,
+  exists n choose more finish pre start quits can_sign w0 sched,
     (forall b, pre b = []) /\
     (forall b r l, NoDup (map uid l) -> incl (choose b r l) l /\ NoDup (map uid (choose b r l))) /\
     NoDup (map (fun e : utxo * bool => uid (fst e)) w0) /\ (forall e, In e w0 -> snd e = false) /\
-    let st := run false true n choose more finish pre start can_sign sched (init w0) in
+    let st := run false true n choose more finish pre start quits can_sign sched (init w0) in
     exists i, In i (held_ids st 0) /\ In i (held_ids st 1).
 Proof. exact lock_needed. Qed.
 Print Assumptions C14_lock_needed.
 
 Example C14_ex_with_lock :
-  let st := run true true 2 first_one (fun _ _ _ => false) (fun _ => false) (fun _ => []) (fun _ => true) (fun _ _ => true) demo_sched (init demo_wallet) in
+  let st := run true true 2 first_one (fun _ _ _ => false) (fun _ => false) (fun _ => []) (fun _ => true) (fun _ _ => false) (fun _ _ => true) demo_sched (init demo_wallet) in
   held_ids st 0 = [1%N] /\ held_ids st 1 = [] /\ lock st = Some 1%nat.
 Proof. exact demo_with_lock. Qed.
 
 (* non-vacuity for the signing failure: funded, tx.sign raises, everything is released *)
 Example C14_ex_sign_fails :
-  let st := run true true 1 first_one (fun _ _ _ => false) (fun _ => false) (fun _ => []) (fun _ => true) (fun _ _ => false)
+  let st := run true true 1 first_one (fun _ _ _ => false) (fun _ => false) (fun _ => []) (fun _ => true) (fun _ _ => false) (fun _ _ => false)
                 [0; 0; 0; 0; 0; 0; 0; 0; 0]%nat (init demo_wallet) in
   ph (bs st 0%nat) = PDone Failed /\ reserved_ids (wal st) = [] /\ wal st = demo_wallet /\
-  (let st5 := run true true 1 first_one (fun _ _ _ => false) (fun _ => false) (fun _ => []) (fun _ => true) (fun _ _ => false)
+  (let st5 := run true true 1 first_one (fun _ _ _ => false) (fun _ => false) (fun _ => []) (fun _ => true) (fun _ _ => false) (fun _ _ => false)
                   [0; 0; 0; 0; 0; 0; 0; 0]%nat (init demo_wallet) in
    ph (bs st5 0%nat) = PAbort /\ held_ids st5 0%nat = [1%N]).
 Proof. exact demo_sign_fails. Qed.
@@ -104,20 +104,20 @@ Proof. exact demo_sign_fails. Qed.
    reserves its pre-chosen output 1, build 0 selects and reserves output 1 as well: both hold it. *)
 Example C14_prechosen_race_old_refuted :
   let st := run true false 2 first_one (fun _ _ _ => false) (fun _ => false) race_pre (fun b => Nat.eqb b 0)
-                (fun _ _ => true) race_sched (init demo_wallet) in
+                (fun _ _ => false) (fun _ _ => true) race_sched (init demo_wallet) in
   held_ids st 0%nat = [1%N] /\ held_ids st 1%nat = [1%N].
 Proof. exact prechosen_race_old_refuted. Qed.
 (* the repaired program on the same schedule: build 1 waits for the lock *)
 Example C14_prechosen_race_repaired :
   let st := run true true 2 first_one (fun _ _ _ => false) (fun _ => false) race_pre (fun b => Nat.eqb b 0)
-                (fun _ _ => true) race_sched (init demo_wallet) in
+                (fun _ _ => false) (fun _ _ => true) race_sched (init demo_wallet) in
   held_ids st 0%nat = [1%N] /\ held_ids st 1%nat = [] /\ ph (bs st 1%nat) = PPreLock.
 Proof. exact prechosen_race_repaired. Qed.
 (* a sweep: the pre-chosen output covers the cost, the build holds it without ever asking for funds, and abandoning it
    restores the wallet *)
 Example C14_prechosen_sweep :
   let run_ s := run true true 1 first_one (fun _ _ _ => false) (fun _ => false)
-                (fun _ => [mkU 1 500000 5 true true 1]) (fun _ => false) (fun _ _ => true) s (init demo_wallet) in
+                (fun _ => [mkU 1 500000 5 true true 1]) (fun _ => false) (fun _ _ => false) (fun _ _ => true) s (init demo_wallet) in
   held_ids (run_ [0; 0; 0]%nat) 0%nat = [1%N] /\ reserved_ids (wal (run_ [0; 0; 0]%nat)) = [1%N] /\
   ph (bs (run_ [0; 0; 0; 0]%nat) 0%nat) = PDone Released /\ wal (run_ [0; 0; 0; 0]%nat) = demo_wallet.
 Proof. exact prechosen_sweep. Qed.
@@ -126,15 +126,27 @@ Proof. exact prechosen_sweep. Qed.
    cancelled while pending): the inputs are released and the build is over; and a build that is over does nothing
    more - in particular its released transaction is not sent later. *)
 Theorem C14_failed_send_releases :
-  forall use_lock lock_pre n choose more finish pre start can_sign st b,
-  b < n -> ph (bs st b) = PFinish -> finish b = false ->
-  let st' := step use_lock lock_pre n choose more finish pre start can_sign st b in
+  forall use_lock lock_pre n choose more finish pre start quits can_sign st b,
+  b < n -> ph (bs st b) = PFinish -> quits b (rnd (bs st b)) = false -> finish b = false ->
+  let st' := step use_lock lock_pre n choose more finish pre start quits can_sign st b in
   wal st' = release (map uid (held (bs st b))) (wal st) /\ ph (bs st' b) = PDone Released /\ held (bs st' b) = [].
 Proof. exact failed_send_releases. Qed.
 Print Assumptions C14_failed_send_releases.
 Theorem C14_done_is_final :
-  forall use_lock lock_pre n choose more finish pre start can_sign st b,
+  forall use_lock lock_pre n choose more finish pre start quits can_sign st b,
   finished (ph (bs st b)) = true ->
-  step use_lock lock_pre n choose more finish pre start can_sign st b = st.
+  step use_lock lock_pre n choose more finish pre start quits can_sign st b = st.
 Proof. exact done_is_final. Qed.
 Print Assumptions C14_done_is_final.
+
+(* Cancellation ([quits b r] = true: build b is cancelled while it waits for the lock of round r + 1, or after its
+   last round r before its transaction is handed out): the build goes through Abort = release_tx and ends Failed, so
+   C14_exclusive and C14_all_released hold for cancelled builds as for any other failure (they quantify over [quits]). *)
+Example C14_ex_cancelled :
+  let run_ q s := run true true 1 first_one (fun _ _ _ => false) (fun _ => false) (fun _ => []) (fun _ => true) q
+                      (fun _ _ => true) s (init demo_wallet) in
+  ph (bs (run_ (fun _ r => Nat.eqb r 0) [0; 0; 0; 0; 0]%nat) 0%nat) = PDone Failed /\
+  ph (bs (run_ (fun _ r => Nat.eqb r 1) [0; 0; 0; 0; 0; 0; 0; 0; 0]%nat) 0%nat) = PAbort /\
+  held_ids (run_ (fun _ r => Nat.eqb r 1) [0; 0; 0; 0; 0; 0; 0; 0; 0]%nat) 0%nat = [1%N] /\
+  wal (run_ (fun _ r => Nat.eqb r 1) [0; 0; 0; 0; 0; 0; 0; 0; 0; 0]%nat) = demo_wallet.
+Proof. exact demo_cancelled. Qed.
